@@ -62,6 +62,16 @@ chk("C10", "exploration",
     "Sampling over (state class x refusal kind x position); the snapshot is taken through public getters and public flag bits.",
     "deterministic simulation: refusal injection (vetoing callback party, poisoned element at a chosen position, illegal request) with snapshot oracle", "7/C10")
 
+chk("C05", "exploration",
+    "Seeded histories (accepted parses of rendered texts and setter/list/section/annotation calls with string values and titles over bytes 1..255 biased to quotes, backslashes, $, {, newlines, comment markers) reach states of printable schemas; at plan-chosen points the context is saved with cfg_print into the simulated file system, freed, re-created from the same declarations and loaded, twice in a row, and the history continues on the reloaded context. The load must be accepted; sections, titles, list lengths and values must be equal (strings bytewise, floats to printed precision); with annotations off the second text equals the first; in every case the text after the second cycle equals the text after the first.",
+    "States with no textual form (NULL string value, removed single section) are don't-cares; titled single sections are not generated. The simulated environment is live during the load.",
+    "deterministic simulation: save / process-restart / load injected at arbitrary points of seeded API+parse histories, round-trip oracle", "7/C05")
+
+chk("C06", "fault_enumeration",
+    "For a rendered valid text (any mix of comment styles, blank lines, multi-line strings; buffer/stream/file; in half of the runs spread over an include tree in the simulated file system) the generator knows file and extent of every token; for EVERY token of every file one run per applicable fault is executed: undeclared name, unconvertible value, wrong punctuation, premature end right before the token. A failed parse must return the parse-error code, deliver at least one diagnostic, and the context handed to the error function at the first diagnostic must name the damaged file and the line on which the offending token ends; an accepted parse must deliver no diagnostic.",
+    "Complete over token positions per generated text; texts are sampled. Expected lines count newlines of the generator's own text once (no parser model). The schedule dimension is empty for this property.",
+    "deterministic simulation: exhaustive per-token fault injection (wrong token / bad value / cut) in a simulated include tree with a line oracle from the generator's token map", "7/C06")
+
 PENDING = {}  # id -> reason (checks not built yet)
 
 def main():
